@@ -14,6 +14,6 @@ CONFIG = {
                     "window_success is proved for accept/dial issued from a quiescent broker state (Run idle, queue empty) with the five events consecutive; "
                     "interleaving with other ids' events is exercised by the correspondence run, not proved (frame lemma not yet formalised)"],
     "timeout": {"quick": 600, "thorough": 3000},
-    "level_text": "Lean theorems over the MuxBroker transition system (Model/MuxBroker.lean) for every finite history and interleaving: Accept(n) only returns a stream whose header is n (accept_returns_matching), no stream is returned twice (stream_unique), parked streams sit in their own id's slot, and accept-then-dial / dial-then-accept from any reachable quiescent state both succeed on the new stream (window_success, dispense_reaches_its_server). Facts (select shapes, channel capacity, 5 s windows) re-extracted and re-proved each run; real broker pairs over real yamux/TCP run ~70 timed histories per run and are compared op by op with the model's timed run; pairing checked by nonce echo. Also (Model/MuxFrame.lean): for every header, application bytes and split of the peer's output into already-arrived and later bytes the application reads exactly the peer's bytes (app_bytes_complete; facts: header/ack read directly on the stream that is handed on, no deadline left on it; witnesses); the exchange on every connection lets, by id, the dialler or the acceptor speak first, sends 300 KiB both ways and a 1 MiB write 5.3 s after Accept. Fifth round: Model/IdAlloc.lean — NextId is one atomic read-modify-write (fact), hence no two reservations ever collide, for every number of callers and every interleaving (Props/IdAlloc.ids_distinct, an invariant over the event list; two_op_witness); cells C06.ids (64 goroutines x 2000 reservations) and C06.dispense (16 x 12 concurrent net/rpc Dispense calls, each reaching a server object of its own).",
+    "level_text": "Lean theorems over the MuxBroker transition system (Model/MuxBroker.lean) for every finite history and interleaving: Accept(n) only returns a stream whose header is n (accept_returns_matching), no stream is returned twice (stream_unique), parked streams sit in their own id's slot, and accept-then-dial / dial-then-accept from any reachable quiescent state both succeed on the new stream (window_success, dispense_reaches_its_server). Facts (select shapes, channel capacity, 5 s windows) re-extracted and re-proved each run; real broker pairs over real yamux/TCP run ~70 timed histories per run and are compared op by op with the model's timed run; pairing checked by nonce echo. Also (Model/MuxFrame.lean): for every header, application bytes and split of the peer's output into already-arrived and later bytes the application reads exactly the peer's bytes (app_bytes_complete; facts: header/ack read directly on the stream that is handed on, no deadline left on it; witnesses); the exchange on every connection lets, by id, the dialler or the acceptor speak first, sends 300 KiB both ways and a 1 MiB write 5.3 s after Accept. Fifth round: Model/IdAlloc.lean — NextId is one atomic read-modify-write (fact), hence no two reservations ever collide, for every number of callers and every interleaving (Props/IdAlloc.ids_distinct, an invariant over the event list; two_op_witness); cells C06.ids (64 goroutines x 2000 reservations) and C06.dispense (16 x 12 concurrent net/rpc Dispense calls, each reaching a server object of its own). Sixth round: MuxBroker.AcceptParams — the timer arm of Accept is straight-line (the timed-out accept leaves the mutex free) and the slot map belongs to the accepts (Dial never deletes from it): accept_bookkeeping + witnesses; fixed histories accept-timeout-then-pairs and same-number-* (the same number in both directions).",
     "level_note": "Invariants are full strength (all histories, any number of ids, both directions as independent instances). window_success is proved from any reachable state with Run idle and the accept queue empty, the five events consecutive: interleaving with other ids' events is exercised by the correspondence run but the frame lemma is not formalised. yamux FIFO/isolation/byte delivery assumed.",
 }
